@@ -211,7 +211,7 @@ def h_ioworker(ctx, nmsgs, ncalls, plan):
   closes = []
   w.on_close = lambda worker: closes.append(worker)
   class Loop:
-    _workers = set()
+    _workers = set(); _BUF_SIZE = 8192
   loop = Loop(); loop._workers = {w}
   msgs = [ctx.bytes('m%d' % i, 8 + 2 * i) for i in range(nmsgs)]
   queued = []; nxt = 0
